@@ -1,7 +1,9 @@
 ----------------------------- MODULE CalLemmas -----------------------------
 (* Unbounded integer lemmas about Cal.tla's Gregorian day line, discharged by Apalache for ALL years y \in Int
    (thorough tier of C03): consecutive year starts differ by the year's length, the calendar is 400-year periodic
-   with period 146 097 days = 20 871 weeks (so weekdays are periodic too).  These justify treating one 400-year
+   with period 146 097 days = 20 871 weeks (so weekdays are periodic too); ISO week-numbering years start on a Monday
+   between 29 December and 4 January, have 52 or 53 weeks (53 exactly when 1 January is a Thursday, or a Wednesday of a
+   leap year) and are 400-year periodic too (WeekLemmas).  These justify treating one 400-year
    cycle as the complete quotient of the Gregorian calendar at the specification level.
    (The definitions repeat Cal.tla verbatim, with Apalache type annotations.) *)
 EXTENDS Integers
@@ -20,4 +22,17 @@ Lemmas == /\ YearStartG(y + 1) - YearStartG(y) = (IF IsLeapG(y) THEN 366 ELSE 36
           /\ YearStartG(y + 400) - YearStartG(y) = 146097
           /\ (YearStartG(y) - 2) % 7 = (YearStartG(y + 400) - 2) % 7
           /\ YearStartG(2000) = 0
+\* ISO 8601 week-numbering years on that day line (Cal.tla: Weekday, WeekYearStart), for all integer years
+\* @type: (Int) => Int;
+WeekdayG(n) == ((n - 2) % 7) + 1
+\* @type: (Int) => Int;
+WeekYearStartG(wy) == (YearStartG(wy) + 3) - (WeekdayG(YearStartG(wy) + 3) - 1)
+WeekLemmas ==
+  LET ws == WeekYearStartG(y)  len == WeekYearStartG(y + 1) - WeekYearStartG(y) IN
+  /\ WeekdayG(ws) = 1                                            \* a week-year starts on a Monday
+  /\ ws <= YearStartG(y) + 3 /\ YearStartG(y) + 3 < ws + 7        \* week 1 contains 4 January
+  /\ YearStartG(y) - 3 <= ws /\ ws <= YearStartG(y) + 3           \* ... so it starts between 29 December and 4 January
+  /\ (len = 364 \/ len = 371)                                    \* 52 or 53 whole weeks
+  /\ (len = 371 <=> (WeekdayG(YearStartG(y)) = 4 \/ (IsLeapG(y) /\ WeekdayG(YearStartG(y)) = 3)))   \* the 53-week rule
+  /\ WeekYearStartG(y + 400) - ws = 146097                       \* week-years are 400-year periodic as well
 =============================================================================
